@@ -107,10 +107,14 @@ Judge(T) ==
              ELSE (IF Keys(ja) = Keys(mb) THEN {} ELSE {<<T.prop, "key-pairs-differ", Len(ja), Len(mb)>>})
                   \cup (IF Keys(ja) = Keys(mb) /\ ~SameBag(ca, cb) THEN {<<T.prop, "scores-differ", 0, 0>>} ELSE {})
     [] T.law = "SPLIT" ->
-         IF /\ Len(T.sizes) = T.k
+         (* split_table: chunk i covers rows [b(i-1), b(i)) with b(i) = round(i * n / k); at an exact *)
+         (* .5 tie either neighbour is admitted, but both uses of one boundary must agree            *)
+         LET Cum(j) == SumSeq(SubSeq(T.sizes, 1, j)) IN
+         IF /\ Len(T.sizes) = T.k /\ T.k >= 1
             /\ SumSeq(T.sizes) = T.n
-            /\ \A k \in DOMAIN T.sizes : T.sizes[k] >= 0
-         THEN {} ELSE {<<"DRIFT", "split-not-a-partition", T.n, T.k>>}
+            /\ \A j \in DOMAIN T.sizes : T.sizes[j] >= 0
+            /\ \A j \in 1..T.k : Cum(j) \in RSet(j * T.n, T.k)
+         THEN {} ELSE {<<"DRIFT", "split-not-the-rounding-partition", T.n, T.k>>}
 
 Init == i = 0 /\ verdict = {}
 Next == /\ i < Len(Traces)
